@@ -4,6 +4,19 @@ from vlib import core
 
 PKG = "./lib/collection"
 OVERLAY = {"lib/collection/zz_verif_c10_test.go": "c10/wheel_test.go"}
+META = dict(
+    text="Exhaustive-small-scope model-based replay: TLC enumerates every behaviour of the abstract wheel "
+         "(spec/Wheel.tla via WheelGen.tla) up to 2-3 scheduling operations over 2 keys with every delay up to "
+         "several revolutions and every phase of the wheel, plus seeded simulation of longer behaviours; each "
+         "behaviour is executed on the real TimingWheel (hand-driven ticker) and every tick's fired set, every "
+         "error class and every drain set is compared with the specification. WheelImpl.tla (slots/circles "
+         "mechanism) is model-checked to refine Wheel.tla.",
+    note="Trusted: TLC, the Go driver's barrier (run loop is sequential; goroutine count returns to baseline), "
+         "Go runtime. Delays below one interval and invalid arguments after Stop are outside the statement and "
+         "not generated. Bounds: N in {2,3,4,5,7} slots, <= 3 keys, delays <= 5 revolutions.",
+    technique="TLA+ spec (Wheel/WheelImpl) + TLC-generated behaviours replayed on the real wheel",
+    design="4/C10")
+
 FINISH = dict(rule="behaviours = complete TLC enumeration (BFS over the history variable) of macro-steps "
                    "[pre ticks; op] up to MaxOps scheduling operations followed by ticks past the last due tick "
                    "+ one revolution, plus seeded TLC simulation of longer behaviours; every tick and every "
